@@ -14,13 +14,13 @@ Next == UNCHANGED cur
 Spec == Init /\ [][Next]_cur
 
 Nd(i) == Log[i]
-S(j) == [t |-> j.t, nf |-> j.nf, nfFound |-> j.nfFound, fl |-> j.fl, bal |-> j.bal, auc |-> j.auc, n1 |-> j.n1, n2 |-> j.n2, tm |-> j.tm]
+S(j) == [t |-> j.t, nf |-> j.nf, nfFound |-> j.nfFound, fl |-> j.fl, bal |-> j.bal, auc |-> j.auc, n1 |-> j.n1, n2 |-> j.n2, tm |-> j.tm, esm |-> j.esm, nfo |-> j.nfo]
 Cfg(nd) == Log[nd.st.root].args.c
 Pre(nd) == S(Log[nd.parent].st)
 Post(nd) == S(nd.st)
 IsStep(nd) == nd.a # "Init"
 Same(x, y) == /\ x.t = y.t /\ x.nf = y.nf /\ x.nfFound = y.nfFound /\ x.fl = y.fl /\ x.bal = y.bal
-              /\ Range(x.auc) = Range(y.auc) /\ Len(x.auc) = Len(y.auc) /\ x.n1 = y.n1 /\ x.n2 = y.n2 /\ x.tm = y.tm
+              /\ Range(x.auc) = Range(y.auc) /\ Len(x.auc) = Len(y.auc) /\ x.n1 = y.n1 /\ x.n2 = y.n2 /\ x.tm = y.tm /\ x.esm = y.esm /\ x.nfo = y.nfo
 BidActs == {"BidV1Surplus", "BidV1Debt", "BidV2"}
 GenOf(nd) == IF nd.a = "BidV2" THEN 2 ELSE 1
 
@@ -33,14 +33,13 @@ ConfBid(nd) ==
     [] nd.a = "BidV2" -> Res(nd, BidV2(p, c, g.u, g.id, g.amt, g.denom))
     [] OTHER -> TRUE
 ConfHookV1(nd) == nd.a = "HookV1" => ~nd.res.panic /\ Same(HookV1(Pre(nd), Cfg(nd)), Post(nd))
-(* the debt close may book either amount: the gov amount (code today) or the stable amount (intended) *)
-ConfBlock(nd) == nd.a = "Block" => ~nd.res.panic /\ (\/ Same(Block(Pre(nd), Cfg(nd), nd.args.dt, "gov"), Post(nd))
-                                                     \/ Same(Block(Pre(nd), Cfg(nd), nd.args.dt, "stable"), Post(nd)))
+ConfBlock(nd) == nd.a = "Block" => ~nd.res.panic /\ Same(Block(Pre(nd), Cfg(nd), nd.args.dt), Post(nd))
 ConfEnv(nd) ==
   LET p == Pre(nd) c == Cfg(nd) IN
   CASE nd.a = "Advance" -> Same([p EXCEPT !.t = @ + nd.args.dt], Post(nd))
     [] nd.a = "StartGeneric" -> Res(nd, StartGeneric(p, c, nd.args.lot, nd.args.minBid))
     [] nd.a = "MintGenesis" -> Res(nd, MintGenesis(p))
+    [] nd.a = "EsmOn" -> Same(EsmOn(p), Post(nd))
     [] nd.a = "SeedFees" -> Same(SeedFees(p, nd.args.x), Post(nd))
     [] nd.a = "SurplusFund" -> Res(nd, SurplusFund(p, c))
     [] OTHER -> TRUE
@@ -67,17 +66,27 @@ C11OutbidRefunded(nd) ==
         s.bal[u][d] - p.bal[u][d] = (IF o.nb > 0 /\ o.bidder = u /\ o.payD = d THEN o.pay ELSE 0)
                                     - (IF nd.args.u = u /\ n.payD = d THEN n.pay ELSE 0)
 C11RejectedBidFree(nd) == nd.a \in BidActs /\ ~nd.res.ok => \A u \in UserSet : Post(nd).bal[u] = Pre(nd).bal[u]
-(* at the end exactly one bidder receives the lot and no one else gains or loses anything *)
+(* Every way an auction can end. Regular end: exactly the standing bidder receives the lot, no one else gains  *)
+(* or loses anything, and only auctions with a standing bid end. End by the app's emergency shutdown          *)
+(* (generation 1 only - generation 2 does not look at it): the standing bidder either receives the lot or has   *)
+(* the payment back in full - nobody has lost anything; auctions without bids may end too.                      *)
 ClosedSet(nd) == LET p == Pre(nd) s == Post(nd) IN
                  {i \in 1..Len(p.auc) : IdxOf(s.auc, p.auc[i].gen, p.auc[i].id) = 0}
 WonTerm(a, u, d) == IF a.nb > 0 /\ a.bidder = u /\ a.lotD = d THEN a.lot ELSE 0
-RECURSIVE SumSet(_, _, _, _)
-SumSet(auc, I, u, d) == IF I = {} THEN 0 ELSE LET i == CHOOSE x \in I : TRUE IN WonTerm(auc[i], u, d) + SumSet(auc, I \ {i}, u, d)
+BackTerm(a, u, d) == IF a.nb > 0 /\ a.bidder = u /\ a.payD = d THEN a.pay ELSE 0
+RECURSIVE SumSet(_, _, _, _, _)
+SumSet(auc, I, W, u, d) ==
+  IF I = {} THEN 0
+  ELSE LET i == CHOOSE x \in I : TRUE IN
+       (IF i \in W THEN WonTerm(auc[i], u, d) ELSE BackTerm(auc[i], u, d)) + SumSet(auc, I \ {i}, W, u, d)
+ShutdownEnd(p, i) == p.esm /\ p.auc[i].gen = 1
 C11CloseWinnerOnly(nd) ==
   IsStep(nd) /\ nd.a \notin BidActs =>
-     LET p == Pre(nd) s == Post(nd) I == ClosedSet(nd) IN
-     /\ \A u \in UserSet : \A d \in {CMST, HARBOR, ATOM} : s.bal[u][d] - p.bal[u][d] = SumSet(p.auc, I, u, d)
-     /\ \A i \in I : p.auc[i].nb > 0
+     LET p == Pre(nd) s == Post(nd) I == ClosedSet(nd)
+         Must == {i \in I : ~ShutdownEnd(p, i)}                 \* these must be won by their standing bidder
+     IN /\ \E W \in {X \in SUBSET I : Must \subseteq X} :
+              \A u \in UserSet : \A d \in {CMST, HARBOR, ATOM} : s.bal[u][d] - p.bal[u][d] = SumSet(p.auc, I, W, u, d)
+        /\ \A i \in Must : p.auc[i].nb > 0
 (* ... and it does end: after the generation's hook ran with token-mint data present, no auction with a        *)
 (* standing bid is left beyond its end time                                                                    *)
 HookOf(nd) == IF nd.a = "HookV1" THEN 1 ELSE IF nd.a = "Block" THEN 2 ELSE 0
@@ -126,6 +135,11 @@ Stats == PrintT(<<"STATS", [nodes |-> NLog,
    closesGen2 |-> Count(LAMBDA nd : nd.a = "Block" /\ nd.st.ev.closed # ""),
    starts |-> Count(LAMBDA nd : IsStep(nd) /\ nd.st.ev.started # ""),
    noTokenMintHooks |-> Count(LAMBDA nd : HookOf(nd) # 0 /\ ~Pre(nd).tm /\ nd.st.ev.stuck # ""),
+   shutdownEndsWithBid |-> Count(LAMBDA nd : nd.a = "HookV1" /\ Pre(nd).esm /\ \E i \in ClosedSet(nd) : Pre(nd).auc[i].nb > 0),
+   shutdownEndsNoBid |-> Count(LAMBDA nd : nd.a = "HookV1" /\ Pre(nd).esm /\ \E i \in ClosedSet(nd) : Pre(nd).auc[i].nb = 0),
+   shutdownEndsSurplus |-> Count(LAMBDA nd : nd.a = "HookV1" /\ Pre(nd).esm /\ \E i \in ClosedSet(nd) : Pre(nd).auc[i].kind = "surplus"),
+   shutdownEndsDebt |-> Count(LAMBDA nd : nd.a = "HookV1" /\ Pre(nd).esm /\ \E i \in ClosedSet(nd) : Pre(nd).auc[i].kind = "debt"),
+   shutdownBlocksGen2 |-> Count(LAMBDA nd : nd.a = "Block" /\ Pre(nd).esm /\ ClosedSet(nd) # {}),
    feeMoves |-> Count(LAMBDA nd : IsStep(nd) /\ nd.st.nf # Log[nd.parent].st.nf) ]>>)
 AllSeen == Stats /\ TLCGet("stats").distinct = NLog
 =============================================================================
